@@ -222,6 +222,7 @@ def static_sampler_gives_repeatable_loss(S):
         S.forall("same-unreduced-loss-row-by-row", Tensor(a), lambda q: zreal(a.at(q)) == zreal(b.at(q)))
 
 
+@scenario("C14", [C + "PeriodicCondition.__init__", C + "PeriodicCondition.forward", C + "Condition._setup_data_functions"], configs=["plain", "static"], bounded=BOUND, name="periodic_left_and_right_data_on_their_own_side")
 @scenario("C04", [C + "PeriodicCondition.__init__", C + "PeriodicCondition.forward"], configs=["plain", "static"], bounded=BOUND)
 def periodic_condition_routes_left_and_right(S):
     """post: the residual receives u/t/f with suffix _left evaluated at the LEFT end of the periodic interval and
